@@ -30,7 +30,7 @@ REAL = common.REAL_ALL
 STUBS = common.STUBS_ALL
 INTERLEAVING_MEASURE = 'distinct (monitor kind, mode, number of updates or batches) tuples'
 PROBES = ['stateful_subspec', 'subspec_referenced_twice', 'nested_subspec', 'constant_used', 'constant_as_bound', 'pastified',
-          'online', 'dense_time', 'several_assertions_in_one_text']
+          'online', 'dense_time', 'several_assertions_in_one_text', 'bounds_are_declared_constants_below_1e-6']
 
 
 def gen(rng, tier):
@@ -73,8 +73,15 @@ def gen(rng, tier):
     bconsts = {}
     use_b = rng.random() < 0.35
 
+    fine = dense and rng.random() < 0.1      # time axis in microseconds, bounds = declared constants given in seconds (1e-7 resolution)
+
     def bp(lo, hi, sp):
         def one(q):
+            if fine:
+                if q == 0:
+                    return '0'
+                bconsts['T%d' % q] = sg.fmt_num(sg.Fraction(q, 4) / 10 ** 6)
+                return 'T%d s' % q
             val = sg.fmt_num(sg.Fraction(q, 4)) if dense else str(q)
             if use_b and rng.random() < 0.6:
                 name = 'b%d' % q
@@ -88,7 +95,7 @@ def gen(rng, tier):
     pastify = mode == 'on' and (any(x[0] in sg.FUTURE_OPS for x in sg.walk(ast)) or rng.random() < 0.1)
     sc = {'kind': kind, 'mode': mode, 'vars': vars_, 'ast': ast, 'defs': defs, 'top': top, 'subs_text': subs, 'top_text': toptext,
           'consts': dict((k, repr(float(v))) for k, v in consts.items()), 'bconsts': bconsts, 'pastify': bool(pastify),
-          'declare': rng.random() < 0.5, 'via': rng.choice(['add_sub_spec', 'text']), 'const_numeric': rng.random() < 0.4}
+          'declare': rng.random() < 0.5, 'via': rng.choice(['add_sub_spec', 'text']), 'const_numeric': rng.random() < 0.4, 'fine': fine}
     if dense:
         sc['signals'] = dict((v, world.gen_dense_signal(rng, rng.randint(2, 7), start_q=0, max_gap_q=4)[0]) for v in vars_)
         sc['nbatches'] = rng.randint(1, 4)
@@ -119,6 +126,8 @@ def modular_desc(sc):
         top = 'out = ' + sg.to_text(sc['top'], None, bp) + ';'
         cs = []
     desc['consts'] = cs
+    if sc.get('fine'):
+        desc['unit'] = 'us'
     if sc.get('declare'):
         desc['vars'] = desc['vars'] + [[n, 'float'] for n, _ in sc['defs']]
     if sc.get('via') == 'text':
@@ -132,7 +141,17 @@ def modular_desc(sc):
 def inlined_desc(sc):
     dense = sc['kind'].startswith('ct')
     text = common.dense_text(sc['ast']) if dense else 'out = ' + sg.to_text(sc['ast']) + ';'
-    return {'cls': sc['kind'], 'vars': common.var_decls(sc['vars']), 'spec': text, 'pastify': sc['pastify']}
+    d = {'cls': sc['kind'], 'vars': common.var_decls(sc['vars']), 'spec': text, 'pastify': sc['pastify']}
+    if sc.get('fine'):
+        d['unit'] = 'us'
+        if sc.get('subs_text') is not None:
+            # the inlined form writes the same bounds as literals in seconds
+            def lit(lo, hi, sp):
+                def one(q):
+                    return '0' if q == 0 else sg.fmt_num(sg.Fraction(q, 4) / 10 ** 6) + 's'
+                return '[' + one(lo) + ':' + one(hi) + ']'
+            d['spec'] = 'out = ' + sg.to_text(sc['ast'], None, lit) + ';'
+    return d
 
 
 def eqn(a, b):
@@ -294,6 +313,8 @@ def run(sc):
         r.probes['constant_as_bound'] += 1
     if sc['pastify']:
         r.probes['pastified'] += 1
+    if sc.get('fine') and sc.get('subs_text') is not None:
+        r.probes['bounds_are_declared_constants_below_1e-6'] += 1
     if dense:
         r.probes['dense_time'] += 1
     if sc.get('via') == 'text':
